@@ -1,8 +1,18 @@
 """C16 check configuration."""
 
 PROP = {
-    "pkg": "internal/dnsforward",
-    "files": ["dnsforward/common_world_test.go", "dnsforward/c01_test.go", "dnsforward/c16_test.go", "dnsforward/c16_history_test.go"],
+    "parts": [
+        {"name": "server", "pkg": "internal/dnsforward",
+         "files": ["dnsforward/common_world_test.go", "dnsforward/c01_test.go", "dnsforward/c16_test.go", "dnsforward/c16_history_test.go"],
+         "tests": [
+             ("TestVFC16Extract", (30000, 150000)),
+             ("TestVFC16EndToEnd", (300, 1000)),
+             ("TestVFC16History", (24, 200)),
+             ("TestVFC16Volume", (60, 400)),
+         ]},
+        {"name": "home_tls", "pkg": "internal/home", "files": ["home/common_assembly_test.go", "home/c16_tls_test.go"],
+         "tests": [("TestVFC16StrictSNISurvivesTLSSave", (25, 150))], "shards": (1, 4)},
+    ],
     "level": "exploration",
     "technique": "property-based testing (rapid): grammar-generated server names, DoH paths and Host headers against a "
                  "reference extraction function written from the statement, plus universal validity invariants",
@@ -16,16 +26,14 @@ PROP = {
                   "TestVFC16History runs generated histories on a started server over real sockets (DoT handshakes with "
                   "drawn server names, plain UDP/TCP, Server.Reconfigure in between) and requires every request to be "
                   "attributed (at the per-request client-settings callback) to the ClientID it carries itself, whatever "
-                  "was served before.",
+                  "was served before. TestVFC16Volume does the same in-process after thousands of earlier requests of "
+                  "the kinds the server answers by itself (canary, health check, AAAA when switched off). The part "
+                  "home_tls saves TLS settings through POST /control/tls/configure and requires the file-only option "
+                  "strict_sni_check to survive in the running configuration, in what the DNS server is given and "
+                  "in the file written back.",
     "level_note": "Server names whose domain part differs only in letter case from the configured name, and the "
                   "empty-label form '.<server name>', are tagged ambiguous (the statement does not decide them); "
                   "malformed Host headers are not generated.",
-    "tests": [
-        ("TestVFC16Extract", (30000, 150000)),
-        ("TestVFC16EndToEnd", (300, 1000)),
-        ("TestVFC16History", (24, 200)),
-        ("TestVFC16Volume", (60, 400)),
-    ],
     "shards": (2, 16),
     "workers": (4, 16),
     "rule": "Case = (protocol, configured server name of 0-4 labels, strict on/off, client server name form out of 14, "
